@@ -52,7 +52,24 @@ class SimDerivedOSError(OSError):
     pass
 
 
+import dataclasses as _dc
+
+
+@_dc.dataclass(frozen=True)
+class SimFrozenError(Exception):
+    """an exception class that refuses attribute assignment (frozen dataclass)"""
+    code: str = ""
+
+
+class SimReadOnlyError(Exception):
+    """an exception class whose instances refuse every attribute assignment"""
+    def __setattr__(self, k, v):
+        raise AttributeError("read-only exception: cannot set %s" % k)
+
+
 EXC_KINDS = {
+    "frozen": lambda x: SimFrozenError(str(x)),
+    "readonly": lambda x: SimReadOnlyError(x),
     "perm": lambda x: PermissionError(13, "account %s is frozen" % (x,)),
     "notfound": lambda x: FileNotFoundError(2, "no such file", str(x)),
     "timeout": lambda x: TimeoutError("timed out %s" % (x,)),
@@ -208,6 +225,13 @@ class Sim(object):
                 sim.execs[self._nid].append((self.raftLastApplied + 1, ("boom", x)))
                 self.log.append(("boom", x))
                 raise SimCustomError(x, "rename")
+
+            # a raising method declared with @replicated_sync (called with sync=False and a callback by the harness)
+            @so.replicated_sync
+            def booms(self, x):
+                sim.execs[self._nid].append((self.raftLastApplied + 1, ("boom", x)))
+                self.log.append(("boom", x))
+                raise ValueError("insufficient funds %s" % (x,))
 
             # exception classes outside the usual ValueError/KeyError family (a handler that treats some of
             # them specially must still record the outcome and move on)
